@@ -241,6 +241,21 @@ def reader_check(ctx, parsed, graphs, fin_graphs):
 
         tb = traceback.extract_tb(inner.__traceback__)
         cause["line"] = tb[-1].line if tb else ""
+        # is the reader's disagreement explained by a task graph that has TASK_CANCEL rows
+        # (e.g. an untaken conditional branch) but neither finished nor lost a sink?
+        unfinished = False
+        crows = {r[5] for r in parsed if len(r) > 5 and r[1] == "TASK_CANCEL"}
+        for g in crows:
+            if g in fin_graphs:
+                continue
+            bynode = graphs.get(g, {})
+            base = g.split("@")[0]
+            sinks = [n for n, nd in ctx.nodes.get(base, {}).items() if not nd["children"]]
+            if not any(n in bynode and bynode[n].state == "CANCELLED" for n in sinks):
+                unfinished = True
+        cause["unfinished_graph_with_cancelled_nonsink"] = unfinished
+        for k in ("closed_loop", "conditional", "cancellations"):
+            cause.pop(k, None)
         ctx.violate("C08", "reader_rejects_trace", f"CSVReader.parse_events raised {msg[:200]} "
                     f"[{cause['line']}]", cause)
         return
